@@ -129,9 +129,10 @@ def bracket_oracle(data):
     s = lat(data)
     out = {}
     opens = [i for i, c in enumerate(s) if c == "["]
-    closes = [i for i, c in enumerate(s) if c == "]"]
     for i in opens[:6]:
-        for j in [j for j in closes if j > i][:6]:
+        # the text urllib would check: from after '[' to the next ']' -- or, without one, to the end of the netloc
+        ends = [j for j in range(i + 1, len(s)) if s[j] in "]/?#" or s[j].isspace()][:10] + [len(s)]
+        for j in ends:
             cand = s[i + 1:j]
             try:
                 _check_bracketed_host(cand)
@@ -226,7 +227,7 @@ def run_srv(case):
     exc = feed(p, chunks)
     data = b"".join(chunks)
     obs = {"written": t.written().hex(), "state": p.state, "closed": closed_kind(t), "events": ev_names(events),
-           "exc": exc, "br": bracket_oracle(data[:4096]) if (b"[" in data[:4096] and b"]" in data[:4096]) else {},
+           "exc": exc, "br": bracket_oracle(data[:4096]) if b"[" in data[:4096] else {},
            "redirect": redirect_oracle(p)}
     return obs
 
